@@ -581,6 +581,64 @@ def prefix_lang(pattern: str, flags: int = 0) -> tuple:
     return _comp_top(p, EPS, p.state.flags)
 
 
+def consumed_lang(pattern: str, flags: int = 0) -> tuple:
+    """language of the texts a match of `pattern` can consume; a look-behind in front of the pattern and a look-ahead behind it
+    constrain the surroundings, not the consumed text, and are left out (exact as far as the consumed text goes)."""
+    p = parse(pattern, flags)
+    lo, hi = 0, len(p)
+    while lo < hi and p[lo][0] in (sre_c.ASSERT, sre_c.ASSERT_NOT) and p[lo][1][0] < 0:
+        lo += 1
+    while hi > lo and p[hi - 1][0] in (sre_c.ASSERT, sre_c.ASSERT_NOT) and p[hi - 1][1][0] > 0:
+        hi -= 1
+    return _comp_top(p[lo:hi], EPS, p.state.flags)
+
+
+def atoms_consuming(pattern: str, ch: str, flags: int = 0) -> List[str]:
+    """the one-character items of the pattern (outside look-arounds) that accept the character `ch`, as text - for characters
+    outside the engine's alphabet (a line break): 'can a match contain ch' is answered by 'is there an item that takes it'."""
+    p = parse(pattern, flags)
+    fl = p.state.flags
+    out: List[str] = []
+
+    def in_accepts(items) -> bool:
+        neg, hit = False, False
+        for op, av in items:
+            if op is sre_c.NEGATE:
+                neg = True
+            elif op is sre_c.LITERAL:
+                hit |= chr(av) == ch
+            elif op is sre_c.RANGE:
+                hit |= av[0] <= ord(ch) <= av[1]
+            elif op is sre_c.CATEGORY:
+                name = str(av)
+                is_sp, is_dg, is_w = ch.isspace(), ch.isdigit(), (ch.isalnum() or ch == "_")
+                hit |= {"CATEGORY_SPACE": is_sp, "CATEGORY_NOT_SPACE": not is_sp, "CATEGORY_DIGIT": is_dg, "CATEGORY_NOT_DIGIT": not is_dg,
+                        "CATEGORY_WORD": is_w, "CATEGORY_NOT_WORD": not is_w}.get(name, True)
+        return hit != neg
+
+    def walk(seq):
+        for op, av in seq:
+            if op in (sre_c.ASSERT, sre_c.ASSERT_NOT):
+                continue
+            if op is sre_c.LITERAL and chr(av) == ch:
+                out.append(repr(ch))
+            elif op is sre_c.NOT_LITERAL and chr(av) != ch:
+                out.append(f"[^{chr(av)}]")
+            elif op is sre_c.ANY and (ch != "\n" or fl & re.DOTALL):
+                out.append(".")
+            elif op is sre_c.IN and in_accepts(av):
+                out.append("[...]" if len(av) > 3 else "[" + "".join("^" if o is sre_c.NEGATE else chr(a) if o is sre_c.LITERAL else "\\?" for o, a in av) + "]")
+            elif op is sre_c.BRANCH:
+                for a in av[1]:
+                    walk(a)
+            elif op is sre_c.SUBPATTERN:
+                walk(av[-1])
+            elif op in (sre_c.MAX_REPEAT, sre_c.MIN_REPEAT) or str(op) == "POSSESSIVE_REPEAT":
+                walk(av[2])
+    walk(p)
+    return out
+
+
 def has_cased_literal(pattern: str, flags: int = 0) -> Optional[str]:
     """a cased literal/range occurring in the pattern where IGNORECASE is not in effect - neither through `flags`, a global
     `(?i)` nor a scoped `(?i:...)` (None if the pattern is case-neutral)."""
